@@ -133,9 +133,9 @@ func cases(tier string, seed int64) []eng.Case {
 
 	// 2. rotations
 	smallN := []int{4, 5, 6}
-	bigN := []int{8, 10}
+	bigN := []int{7, 8, 9, 10, 11}
 	if thorough {
-		bigN = []int{7, 8, 9, 10, 11, 12}
+		bigN = []int{7, 8, 9, 10, 11, 12, 13}
 	}
 	addRot := func(f fam, logN int, sh shape) {
 		cf, ok := mkCfg(r, f.scheme, f.ring, logN, sh, f.ntt)
@@ -144,27 +144,36 @@ func cases(tier string, seed int64) []eng.Case {
 		}
 		out = append(out, eng.Case{ID: uid("rot/" + cf.tag()), Sig: "C11|rotation", Desc: cf, Run: func(c *eng.Ctx) { runRot(c, cf) }})
 	}
-	for _, f := range fams {
-		for _, logN := range smallN {
-			addRot(f, logN, withP[r.N(len(withP))])
-			if thorough || r.N(2) == 0 {
-				addRot(f, logN, noHoist[r.N(len(noHoist))])
-			}
-			if thorough {
+	reps := 1
+	if thorough {
+		reps = 2
+	}
+	for rep := 0; rep < reps; rep++ {
+		for _, f := range fams {
+			for _, logN := range smallN {
 				addRot(f, logN, withP[r.N(len(withP))])
+				if thorough || r.N(2) == 0 {
+					addRot(f, logN, noHoist[r.N(len(noHoist))])
+				}
+				if thorough {
+					addRot(f, logN, withP[r.N(len(withP))])
+				}
 			}
-		}
-		for _, logN := range bigN {
-			addRot(f, logN, withP[r.N(len(withP))])
-			if thorough {
+			for _, logN := range bigN {
 				addRot(f, logN, withP[r.N(len(withP))])
-				addRot(f, logN, noHoist[r.N(len(noHoist))])
+				if logN <= 9 {
+					addRot(f, logN, noHoist[r.N(len(noHoist))])
+				}
+				if thorough {
+					addRot(f, logN, withP[r.N(len(withP))])
+					addRot(f, logN, noHoist[r.N(len(noHoist))])
+				}
 			}
-		}
-		if f.scheme != "ckks" {
-			addRot(f, eng.Pick(r, 5, 8, 9), rawRNS)
-		} else {
-			addRot(f, eng.Pick(r, 7, 9), noHoist[r.N(len(noHoist))])
+			if f.scheme != "ckks" {
+				addRot(f, eng.Pick(r, 5, 8, 9), rawRNS)
+			} else {
+				addRot(f, eng.Pick(r, 7, 9), noHoist[r.N(len(noHoist))])
+			}
 		}
 	}
 
@@ -183,69 +192,77 @@ func cases(tier string, seed int64) []eng.Case {
 		case "bgv":
 			return []string{"RotateAndAdd", "InnerSum", "Replicate", "InnerFunction"}
 		}
-		return []string{"PartialTracesSum", "Replicate"}
+		return []string{"PartialTracesSum", "Replicate", "InnerFunction"}
 	}
-	exN := []int{4, 5}
+	exN := []int{4, 5, 6}
+	sampN := []int{7, 8, 9, 10, 11}
 	if thorough {
-		exN = []int{4, 5, 6}
+		sampN = []int{7, 8, 9, 10, 11, 12}
 	}
-	sampN := []int{8, 10}
-	if thorough {
-		sampN = []int{7, 8, 9, 10, 11}
-	}
-	for _, f := range fams {
-		if f.scheme == "rlwe" && f.ring == "ci" && !f.ntt && !thorough {
-			continue
-		}
-		for _, op := range opsOf(f) {
-			for _, logN := range exN {
-				ln := logN
-				if f.scheme == "ckks" && f.ring == "std" {
-					ln++ // same slot count as the other families
-				}
-				budget := 400
-				if thorough {
-					budget = 4000
-				}
-				addSum(f, ln, withP[r.N(len(withP))], op, true, budget)
+	for rep := 0; rep < reps; rep++ {
+		for _, f := range fams {
+			if f.scheme == "rlwe" && f.ring == "ci" && !f.ntt && !thorough {
+				continue
 			}
-			for _, logN := range sampN {
-				if !thorough && r.N(2) == 0 && logN != sampN[len(sampN)-1] {
-					continue
+			for _, op := range opsOf(f) {
+				for _, logN := range exN {
+					ln := logN
+					if f.scheme == "ckks" && f.ring == "std" {
+						ln++ // same slot count as the other families
+					}
+					budget := 300
+					if thorough {
+						budget = 4000
+					}
+					addSum(f, ln, withP[r.N(len(withP))], op, true, budget)
 				}
-				budget := 10
-				if thorough {
-					budget = 24
+				for _, logN := range sampN {
+					budget := 12
+					if thorough {
+						budget = 30
+					}
+					addSum(f, logN, withP[r.N(len(withP))], op, false, budget)
 				}
-				addSum(f, logN, withP[r.N(len(withP))], op, false, budget)
-			}
-			if op == "InnerFunction" {
-				// the only sum that does not need an auxiliary modulus
-				addSum(f, eng.Pick(r, 5, 6, 8), noHoist[r.N(len(noHoist))], op, false, 12)
+				if op == "InnerFunction" {
+					// the only sum that does not need an auxiliary modulus
+					addSum(f, eng.Pick(r, 5, 6, 8), noHoist[r.N(len(noHoist))], op, false, 12)
+				}
 			}
 		}
 	}
 
+	// 3b. the same sums without auxiliary modulus
+	for _, f := range []fam{{"ckks", "std", true}, {"bgv", "std", true}, {"rlwe", "std", false}} {
+		if cf, ok := mkCfg(r, f.scheme, f.ring, 5, shape{3, 0, 0}, f.ntt); ok {
+			if cf.Scheme == "ckks" {
+				cf.LogScale = 40
+			}
+			out = append(out, eng.Case{ID: uid("sum-noP/" + cf.tag()), Sig: "C11|PartialTracesSum", Desc: cf, Run: func(c *eng.Ctx) { runSumNoP(c, cf) }})
+		}
+	}
+
 	// 4. traces
-	trN := []int{4, 6, 9}
+	trN := []int{4, 5, 6, 7, 8, 9, 10, 11}
 	if thorough {
 		trN = []int{4, 5, 6, 7, 8, 9, 10, 11, 12}
 	}
-	for _, f := range fams {
-		if f.ring == "ci" {
-			continue // Trace is documented for the standard ring only (see limitations)
-		}
-		for _, logN := range trN {
-			shapes := []shape{withP[r.N(len(withP))]}
-			if thorough || r.N(2) == 0 {
-				shapes = append(shapes, noHoist[r.N(len(noHoist))])
+	for rep := 0; rep < reps; rep++ {
+		for _, f := range fams {
+			if f.ring == "ci" {
+				continue // Trace is documented for the standard ring only (see limitations)
 			}
-			for _, sh := range shapes {
-				cf, ok := mkCfg(r, f.scheme, f.ring, logN, sh, f.ntt)
-				if !ok {
-					continue
+			for _, logN := range trN {
+				shapes := []shape{withP[r.N(len(withP))]}
+				if thorough || r.N(2) == 0 {
+					shapes = append(shapes, noHoist[r.N(len(noHoist))])
 				}
-				out = append(out, eng.Case{ID: uid("trace/" + cf.tag()), Sig: "C11|Trace", Desc: cf, Run: func(c *eng.Ctx) { runTrace(c, cf) }})
+				for _, sh := range shapes {
+					cf, ok := mkCfg(r, f.scheme, f.ring, logN, sh, f.ntt)
+					if !ok {
+						continue
+					}
+					out = append(out, eng.Case{ID: uid("trace/" + cf.tag()), Sig: "C11|Trace", Desc: cf, Run: func(c *eng.Ctx) { runTrace(c, cf) }})
+				}
 			}
 		}
 	}
